@@ -64,6 +64,7 @@ func (c *candidate) startElection() {
 				println(c, n, ">>", req)
 			}
 			pool := c.getConnPool(n.ID)
+			verifPoint("vote.send", c.Raft, n.ID, req, c.respCh)
 			go func(ch chan<- rpcResponse) {
 				resp := &voteResp{}
 				err := pool.doRPC(req, resp, deadline)
